@@ -52,6 +52,11 @@ PeerSend(c, n) == /\ cn[c].pin + n <= MaxBytes
 Recv(c, m, sz, tail) == /\ m <= Len(cn[c].kern)
                         /\ cn' = [cn EXCEPT ![c] = RecvEff(@, m, tail)]
                         /\ UNCHANGED raised /\ Log("recv", c, <<m, sz, tail>>)
+\* Server.serviceAxes(): the kernel hands over the waiting connections; gone[c] = the peer of c has reset the connection
+\* before the server looked at it (getpeername() fails): that connection is dropped, the others are accepted
+Accept(gone) == /\ h = <<>>
+                /\ cn' = [c \in Conns |-> IF gone[c] THEN [cn[c] EXCEPT !.hs = "aborted"] ELSE cn[c]]
+                /\ UNCHANGED raised /\ Log("accept", 0, gone)
 Handshake(c, out) == /\ cn[c].hs = "pending"
                      /\ cn' = [cn EXCEPT ![c] = HsEff(@, out)] /\ UNCHANGED raised /\ Log("handshake", c, out)
 \* Server.service(): plan[c] = [hs, m, sz, tail, out]: handshakes of the pending connections, then receives, then sends
@@ -71,6 +76,7 @@ Next == /\ Len(h) < MaxOps
                 \/ (~WithPass /\ \E out \in HsOuts : Handshake(c, out))
                 \/ (~WithPass /\ \E m \in 0..Len(cn[c].kern), sz \in ChunkSizes, tail \in Tails : Recv(c, m, sz, tail))
            \/ (WithPass /\ \E plan \in Plans : Pass(plan))
+           \/ (WithPass /\ \E gone \in [Conns -> BOOLEAN] : Accept(gone))
 Spec == Init /\ [][Next]_vars
 -----------------------------------------------------------------------------
 MCView == <<cn, raised, Len(h)>>
